@@ -19,21 +19,25 @@ func crashUnits(prop, tier string) []Unit {
 			if w.Name == "W6-multikey-atomicity" {
 				continue
 			}
+			if w.Name == "W7-large-multikey" {
+				budgets = []int{0}
+				o.Nested = 0
+			}
 		case "C04":
 			o = crashOpts{Clocks: []int{0, 1, 2}, Atomicity: true, Nested: 1}
 			budgets = []int{0, 1}
 			if tier == "thorough" {
 				budgets = []int{0, 1, 2}
 			}
-			if w.Name != "W6-multikey-atomicity" && w.Name != "W4-multikey-straddles-rotation" {
+			if w.Name != "W6-multikey-atomicity" && w.Name != "W4-multikey-straddles-rotation" && w.Name != "W7-large-multikey" {
 				continue
 			}
-		case "C14":
-			o = crashOpts{Clocks: []int{2}, Torn: true, TornStep: 1}
-			budgets = []int{0}
-			if w.Name == "W1-rotation-flush" || w.Name == "W2-l0-l1-compaction" {
-				budgets = []int{0, 1}
+			if w.Name == "W7-large-multikey" {
+				budgets = []int{0}
 			}
+		case "C14":
+			o = crashOpts{Clocks: []int{2}, Torn: true, TornStep: 1, Nested: 1}
+			budgets = []int{0}
 			if tier == "thorough" {
 				o.Clocks = []int{0, 2}
 				o.Nested = 1
@@ -41,6 +45,10 @@ func crashUnits(prop, tier string) []Unit {
 			}
 			if w.Name == "W6-multikey-atomicity" {
 				continue
+			}
+			if w.Name == "W7-large-multikey" {
+				o.TornStep = 2500 // 90 KB tails: cut every 2 500 bytes (plus nothing and everything)
+				o.Nested = 0
 			}
 		}
 		units = append(units, Unit{Name: fmt.Sprintf("%s/budgets=%v", w.Name, budgets), Weight: len(w.Txns) * len(budgets), Run: func(c *Ctx) {
